@@ -141,7 +141,7 @@ class C10(P.Property):
         run.accepted_files = accepted
         out = dict(obs=[], cover={}, probes={})
         try:
-            with world.Watchdog(60):
+            with world.Watchdog(180):
                 try:
                     run.sim.run(self._scenario(run, plan, w, out, res.violations, msgno))
                 except (core.SimLimit, core.SimDeadlock) as e:
